@@ -367,6 +367,13 @@ pub enum Forgery {
     ResignedShortRoot(u32),
     /// the same with a different root of the right width
     ResignedWrongRoot(u64),
+    /// the same with a root that keeps the first `keep` bytes of the true root (the rest differs
+    /// in every byte): what a prefix-only comparison would let through
+    ResignedRootPrefixKept(u32),
+    /// the same with a root made of one repeated byte
+    ResignedFillRoot(u8),
+    /// a named region filled with one repeated byte (all-zero / all-0xff signatures, keys, ...)
+    Fill { region: String, byte: u8 },
     /// drop the response (timeout path)
     Drop,
     /// deliver the honest response twice
